@@ -359,7 +359,7 @@ func (p *uPacketPacker) planInitialFlight(sealer sealer, maxSize protocol.ByteCo
 func (p *uPacketPacker) flightBudgets(cryptoLen int, sealer sealer, maxSize protocol.ByteCount, v protocol.Version) []InitialDatagramBudget {
 	n := len(p.uSpec.InitialPacketSpec.InitialPackets)
 	if n == 0 {
-		if b := p.initialFrameBudget(maxSize, sealer, v); b > 0 {
+		if b := p.initialFrameBudget(maxSize, 0, sealer, v); b > 0 {
 			n = (cryptoLen + b - 1) / b
 		}
 		n = max(n, 1)
@@ -371,16 +371,24 @@ func (p *uPacketPacker) flightBudgets(cryptoLen int, sealer sealer, maxSize prot
 		if plan.PacketSize > 0 {
 			size = protocol.ByteCount(plan.PacketSize)
 		}
-		budgets[i] = InitialDatagramBudget{Plan: plan, MaxFrameBytes: p.initialFrameBudget(size, sealer, v)}
+		budgets[i] = InitialDatagramBudget{Plan: plan, MaxFrameBytes: p.initialFrameBudget(size, i, sealer, v)}
 	}
 	return budgets
 }
 
 // initialFrameBudget is how many frame payload bytes an Initial packet of exactly
 // packetSize bytes can carry: the size minus the long header — with its Length varint
-// sized the way appendInitialPacketPayload sizes it — and the AEAD tag. [UQUIC]
-func (p *uPacketPacker) initialFrameBudget(packetSize protocol.ByteCount, sealer sealer, v protocol.Version) int {
+// sized the way appendInitialPacketPayload sizes it — and the AEAD tag. idx is the
+// datagram's position in the flight: the header is the one that packet will have, i.e.
+// with the packet number length InitPacketNumberLengths assigns to it, not the one of
+// the packet that is next to be sent when the flight is planned. [UQUIC]
+func (p *uPacketPacker) initialFrameBudget(packetSize protocol.ByteCount, idx int, sealer sealer, v protocol.Version) int {
 	hdr := p.getLongHeader(protocol.EncryptionInitial, v)
+	if lens := p.uSpec.InitialPacketSpec.InitPacketNumberLengths; len(lens) > 0 {
+		// the same entry PeekPacketNumber will select for packet number hdr.PacketNumber+idx
+		k := int(hdr.PacketNumber-protocol.PacketNumber(p.uSpec.InitialPacketSpec.InitPacketNumber)) + idx
+		hdr.PacketNumberLen = lens[min(max(k, 0), len(lens)-1)]
+	}
 	hdr.Length = packetSize
 	budget := packetSize - hdr.GetLength(v) - protocol.ByteCount(sealer.Overhead())
 	return int(max(budget, 0))
